@@ -4,6 +4,8 @@
     Tree/ChoiceInvProofs.v. *)
 From Coq Require Import ZArith List Bool Strings.Byte.
 From YV Require Import Val.Model Tree.Schema Tree.Editor Tree.Merge Tree.EditorProofs Tree.ChoiceInv Tree.ChoiceProofs Tree.ChoiceInvProofs.
+From YV Require Import Base.Verdict.
+From YV Require Check.C09Check.
 Import ListNotations.
 
 (** after clearChoiceCase every definition sitting directly in the cleared case is gone *)
@@ -131,3 +133,44 @@ Example C09_insert_update_do_not_clear :
   edit_content false kids [None; v] [v; None] Update = Ok [v; v] /\
   inv_content kids [v; v] = false.
 Proof. vm_compute. repeat split. Qed.
+
+(** * Targets other than the reference store (Check/C09Check.v, case CNode: nodeutil.Node over Go maps)
+
+    The check records what such a target HOLDS (its Go maps, no library call) and what a READ of it
+    REPORTS (through its own Choose).  The read side of the property is the relation
+    [C09Check.reads_content held reported]; on a store satisfying the invariant it accepts the
+    model's read (with or without the default of an unset leaf of the selected case) and rejects a
+    read that hides the selected case or reports a node of another case.  Values such as [false]
+    are data like any other: *)
+Example C09_read_relation :
+  let mk n g := mkMeta [n] [] true g None in
+  let leaf n g d := SLeaf (mk n g) TBool false d in
+  let t := Some (DLeaf (LV (VBool true))) in
+  let f := Some (DLeaf (LV (VBool false))) in
+  let kids := [leaf x61 [] None; leaf x62 [(0, 0)] None; leaf x63 [(0, 0)] (Some (LV (VBool true)));
+               leaf x64 [(0, 1)] None]%nat in
+  let held := [f; f; None; None] in
+  inv_content kids held = true /\
+  C09Check.model_read kids held = Ok [f; f; None; None] /\
+  C09Check.reads_content kids held [f; f; t; None] = true /\
+  C09Check.reads_content kids held [f; f; None; None] = true /\
+  C09Check.reads_content kids held [f; None; None; None] = false /\
+  C09Check.reads_content kids held [f; f; None; f] = false /\
+  C09Check.reads_content kids held [f; t; None; None] = false.
+Proof. vm_compute. repeat split. Qed.
+Print Assumptions C09_read_relation.
+
+(** one step on such a target: case 0 holds the single leaf [false]; a leaf of case 1 is upserted.
+    Only "case 0 cleared, case 1 held and reported" agrees; a target that keeps the [false] (it did
+    not see case 0 as selected) violates the property whether or not its read shows it *)
+Example C09_zero_valued_case_is_cleared :
+  let leaf n g := SLeaf (mkMeta [n] [] true g None) TBool false None in
+  let kids := [leaf x61 [(0, 0)]; leaf x62 [(0, 1)]]%nat in
+  let t := Some (DLeaf (LV (VBool true))) in
+  let f := Some (DLeaf (LV (VBool false))) in
+  C09Check.classify_node kids [None; t] [f; None] (C09Check.NObsOk [None; t] [None; t]) = Agree /\
+  C09Check.classify_node kids [None; t] [f; None] (C09Check.NObsOk [f; t] [None; t]) = Violates /\
+  C09Check.classify_node kids [None; t] [f; None] (C09Check.NObsOk [f; t] [f; t]) = Violates /\
+  C09Check.classify_node kids [f; None] [None; None] (C09Check.NObsOk [f; None] [None; None]) = Violates.
+Proof. vm_compute. repeat split. Qed.
+Print Assumptions C09_zero_valued_case_is_cleared.
